@@ -1,6 +1,7 @@
 import DeltaModel.Proto
 import DeltaModel.Machine
 import DeltaModel.IngestMachine
+import DeltaModel.InputPath
 /-!
 Model driver for the line state machine.
 
@@ -182,4 +183,44 @@ def stepMachineRaw (line : String) : String :=
     | _, _, _ => "ERR bad raw line"
   | _ => stepMachine line
 
-def main : IO Unit := serve stepMachineRaw
+-- input.run (C11 session 4, T14): the pipe / reader-stack LTS of `DeltaModel/InputPath.lean` ---------------
+-- Request:  `input.run <stdin|subcmd> <ev> <ev> ...`, <ev> = `w<x-hex bytes>` (producer writes a chunk), `c` (closes),
+--           `s<n>` (one consumer step, read size hint n), `p<seed>` (the producer pauses: the consumer runs alone until it
+--           cannot move, read sizes derived from seed; seed 0 = as much as there is; observation taken)
+-- Response: `ok <obs>;<obs>;... <lines>`, <obs> per pause = `handed,curLen,blocked,done,pipeLen,bufLen`,
+--           <lines> = the lines handed to the state machine so far (`linesToMachine`), hex, joined by `,` (`-` if none)
+
+def inputEvs (p : InputPath.Prog) : InputPath.S → List String → List String → Option (InputPath.S × List String)
+  | s, [], acc => some (s, acc.reverse)
+  | s, f :: fs, acc =>
+    match f.toList with
+    | 'w' :: r => match bytesOfField (String.ofList r) with
+      | some bs => inputEvs p (InputPath.apply p s (.write (bs.map UInt8.toNat))) fs acc
+      | none => none
+    | ['c'] => inputEvs p (InputPath.apply p s .close) fs acc
+    | 's' :: r => match (String.ofList r).toNat? with
+      | some n => inputEvs p (InputPath.apply p s (.cons n)) fs acc
+      | none => none
+    | 'p' :: r => match (String.ofList r).toNat? with
+      | some seed =>
+        let hint : Nat → Nat := if seed = 0 then fun _ => 1000000 else fun k => (seed + 7 * k) % 13 + 1
+        let s' := InputPath.settle p hint (InputPath.fuelFor s) s
+        let blocked := (InputPath.cstep p 1 s').isNone
+        let o := toString s'.handed.length ++ "," ++ toString s'.cur.length ++ "," ++ (if blocked then "1" else "0") ++ "," ++
+          (if s'.done then "1" else "0") ++ "," ++ toString s'.pipe.length ++ "," ++ toString s'.buf.length
+        inputEvs p s' fs (o :: acc)
+      | none => none
+    | _ => none
+
+def stepInput (line : String) : String :=
+  match fields line with
+  | "input.run" :: branch :: evs =>
+    let p := if branch = "subcmd" then InputPath.subcmdProg else InputPath.stdinProg
+    match inputEvs p (InputPath.init p) evs [] with
+    | none => "ERR bad event"
+    | some (s, obs) =>
+      let ls := (InputPath.linesToMachine s).map fun l => hexOfBytes (l.map fun b => UInt8.ofNat b)
+      "ok " ++ (if obs = [] then "-" else ";".intercalate obs) ++ " " ++ (if ls = [] then "-" else ",".intercalate ls)
+  | _ => stepMachineRaw line
+
+def main : IO Unit := serve stepInput
